@@ -179,6 +179,31 @@ where
         }
     }
     sessions.push(ops);
+    // the only accepted preimage: decoding of valid encodings, of the same bytes with each flag
+    // toggled, and with single bits flipped (an accepted string must re-encode to itself)
+    let mut ops = vec![];
+    for (i, (p, cls)) in pts.iter().enumerate().take(if thorough { 60 } else { 10 }) {
+        let a = p.into_affine();
+        for form in ["c", "u"].iter() {
+            let b = if *form == "c" { a.into_compressed().as_ref().to_vec() } else { a.into_uncompressed().as_ref().to_vec() };
+            ops.push(json!({"op": "decode", "g": g, "form": form, "bytes": bytes_to_j(&b), "cls": format!("canonical/{}", cls)}));
+            for bit in [7usize, 6, 5].iter() {
+                let mut c = b.clone();
+                c[0] ^= 1 << bit;
+                ops.push(json!({"op": "decode", "g": g, "form": form, "bytes": bytes_to_j(&c), "cls": format!("flag-toggled/{}", cls)}));
+            }
+            if i % 2 == 0 {
+                let mut c = b.clone();
+                let k = r.below((b.len() * 8) as u64) as usize;
+                c[k / 8] ^= 1 << (k % 8);
+                ops.push(json!({"op": "decode", "g": g, "form": form, "bytes": bytes_to_j(&c), "cls": format!("bit-flip/{}", cls)}));
+            }
+        }
+        if ops.len() >= per * 2 {
+            sessions.push(std::mem::replace(&mut ops, vec![]));
+        }
+    }
+    sessions.push(ops);
 }
 
 pub fn wl_c05(seed: u64, tier: &str) -> Vec<Vec<Value>> {
@@ -239,6 +264,10 @@ where
         let p = G::random(&mut rng);
         let q = if i % 3 == 0 { p } else { G::random(&mut rng) };
         push(&mut ops, json!({"op": "prod", "g": g, "fn": "arith", "p": proj_to_j(&p), "q": proj_to_j(&q), "cls": "producer-arith"}));
+        for _ in 0..3 {
+            push(&mut ops, json!({"op": "prod", "g": g, "fn": "batch", "p": proj_to_j(&p), "q": proj_to_j(&q),
+                                  "pattern": r.below(1 << 15), "cls": "producer-batch-normalization"}));
+        }
         let bits = if i % 2 == 0 { 255 } else { 256 };
         push(&mut ops, json!({"op": "prod", "g": g, "fn": "mul", "p": proj_to_j(&p), "k": nat(&rand_scalar_bits(r, bits)), "cls": "producer-mul"}));
         let pts: Vec<Value> = (0..3).map(|_| aff_to_j(&G::random(&mut rng).into_affine())).collect();
